@@ -58,7 +58,9 @@ ASSUMPTIONS = [
     "values declared by the check itself (bank object 'SYN', number 249) use only the public declaration mechanism",
 ]
 
-KNOWN_DEFECT_SIGS = ("C09:read_all-leaves-bank-latched",)
+# The read_all latch defect found at the pinned commit is repaired in /repo (KNOWN_FINDINGS.txt "fixed:" line), so
+# nothing is excluded from the searches any more; if it returns it is reported by the shards and by its regression replay.
+KNOWN_DEFECT_SIGS = ()
 LAST_OUTCOME = [None]      # outcome class of the most recent case (histogram only)
 HEADER = ("LastAddress", "LockByte")
 NLOC = 255
